@@ -251,6 +251,7 @@ func checkC08(p *core.Program, r *core.Report) {
 	r.Rule("O8.1", "preimage = fixed-width positional layout in the circuit's packing order (BE32 indices, 32-byte big integers)")
 	r.Rule("O8.2", "legacy Keccak-256; digest stored with SetBytes into the public-input parameter field")
 	r.Rule("O8.4", "imported verdicts: off-chain tree discipline (C18) and Poseidon shape (C05)")
+	r.Rule("O8.5", "a big.Int copied by value out of a pointer is not followed by a mutating method on the same object (generator, parameter code, off-chain tree)")
 	r.Rule("O8.3", "gen-test-params: all fields set before the helper, none between helper and json.Marshal of the same struct")
 	r.Trusted = append(r.Trusted, "iden3 keccak256.Hash is Keccak-256", "math/big Bytes/FillBytes/SetBytes are big-endian", "encoding/binary.Write writes uint32 and []uint32 as 4 bytes each in the given order", "values are below 2^256 (the pad-if-short idiom does not truncate)")
 	r.NotDecided = append(r.NotDecided, "agreement of the generator's tree with the circuit (C18, C05)", "numerical equality of hashes")
@@ -382,6 +383,10 @@ func checkC08(p *core.Program, r *core.Report) {
 	// O8.3
 	checkGenTestParams(p, r, helpers)
 	// O8.4: "parameters emitted by the generator are provable" also rests on the generator's tree and on Poseidon
+	// O8.5: the generator and the parameter code copy big.Int values out of pointers; no copy is invalidated afterwards
+	checkBigIntAliasing(p, r, "O8.5", func(path string) bool {
+		return path == core.ModulePath || strings.HasSuffix(path, "/prover") || strings.HasSuffix(path, "/poseidon_tree")
+	})
 	importVerdicts(p, r, "O8.4", "generated roots and sibling paths come from the off-chain tree, hashed with Poseidon", "C18", "C05")
 }
 
